@@ -195,22 +195,44 @@ Proof.
   intros [H|H]; [inversion H; subst; auto|]. destruct (IH H); auto.
 Qed.
 
-(** a dropped point is older than the bound *)
-Lemma drop_implies_older mb st ts st' m :
-  Inv st -> Forall in_range ts -> write_points mb st ts = Some (st', m) ->
-  length m = length ts /\ forall t, In (t, None) (combine ts m) -> t < mb.
+(** the per-point outcome function of [write_points] *)
+Definition outcome (mb : Z) (lst : list group) (t : Z) : option N :=
+  if t <? mb then None else option_map g_id (sg_at lst t).
+
+Lemma count_none_map (f : Z -> option N) (mb : Z) ts :
+  (forall t, In t ts -> (f t = None <-> t < mb)) ->
+  count_none (map f ts) = N.of_nat (length (filter (fun t => t <? mb) ts)).
 Proof.
-  intros HI HT E. unfold write_points in E.
-  destruct (ms_collect_min_spec mb ts st [] HI HT) as (st1 & lst & E1 & _ & _ & Hcov & _).
-  rewrite E1 in E. inversion E; subst; clear E. split; [apply map_length|].
-  intros t Hin. apply in_combine_map in Hin as [Hn Hts].
-  destruct (Z_lt_ge_dec t mb) as [L|G]; [exact L|exfalso].
-  assert (G' : mb <= t) by lia. specialize (Hcov t Hts G').
-  unfold sg_at in Hn. destruct (find (fun g => contains g t) lst) eqn:F; [discriminate|].
-  apply existsb_exists in Hcov as (g & Hg & Hc). pose proof (find_none _ _ F g Hg). congruence.
+  intro H. unfold count_none. f_equal. induction ts as [|t r IH]; [reflexivity|]. cbn.
+  assert (Ht := H t (or_introl eq_refl)).
+  assert (IH' := IH (fun x Hx => H x (or_intror Hx))).
+  destruct (f t) eqn:E; destruct (t <? mb) eqn:L; cbn; try (f_equal; exact IH'); try exact IH'.
+  - exfalso. assert (t < mb) by lia. apply Ht in H0. discriminate.
+  - exfalso. assert (t < mb) by (apply Ht; reflexivity). lia.
 Qed.
 
-(** a batch made only of points older than the bound is dropped entirely *)
+(** a point is dropped iff it is older than the bound, with the exact count *)
+Lemma drop_iff_older mb st ts :
+  Inv st -> Forall in_range ts ->
+  exists st' m, write_points mb st ts = Some (st', m) /\ length m = length ts /\
+    (forall t o, In (t, o) (combine ts m) -> (o = None <-> t < mb)) /\
+    count_none m = N.of_nat (length (filter (fun t => t <? mb) ts)).
+Proof.
+  intros HI HT. unfold write_points.
+  destruct (ms_collect_min_spec mb ts st [] HI HT) as (st1 & lst & E1 & _ & _ & Hcov & _).
+  rewrite E1. exists st1, (map (outcome mb lst) ts). split; [reflexivity|].
+  assert (K : forall t, In t ts -> (outcome mb lst t = None <-> t < mb)).
+  { intros t Hts. unfold outcome. destruct (t <? mb) eqn:L; [split; [lia|reflexivity]|].
+    split; [|lia]. intro Hn. exfalso.
+    assert (G : mb <= t) by lia. specialize (Hcov t Hts G). unfold sg_at in Hn.
+    destruct (find (fun g => contains g t) lst) eqn:F; [discriminate|].
+    apply existsb_exists in Hcov as (g & Hg & Hc). pose proof (find_none _ _ F g Hg). congruence. }
+  split; [apply map_length|]. split.
+  - intros t o Hin. apply in_combine_map in Hin as [-> Hts]. apply K; exact Hts.
+  - apply count_none_map. exact K.
+Qed.
+
+(** a batch made only of points older than the bound creates no shard group *)
 Lemma all_old_dropped mb st ts :
   Inv st -> Forall in_range ts -> Forall (fun t => t < mb) ts ->
   write_points mb st ts = Some (st, map (fun _ => None) ts).
@@ -219,27 +241,12 @@ Proof.
   assert (E : ms_collect_min mb st [] ts = Some (st, [])).
   { clear HT. induction ts as [|t r IH]; [reflexivity|]. inversion Hold; subst. cbn.
     assert (L : (t <? mb) = true) by lia. rewrite L. cbn. auto. }
-  rewrite E. reflexivity.
+  rewrite E. f_equal. f_equal. apply map_ext_in. intros t Hin.
+  rewrite Forall_forall in Hold. specialize (Hold t Hin).
+  assert (L : (t <? mb) = true) by lia. rewrite L. reflexivity.
 Qed.
 
 Lemma count_none_all {A} (ts : list A) : count_none (map (fun _ => None) ts) = N.of_nat (length ts).
 Proof.
   unfold count_none. f_equal. induction ts as [|t r IH]; cbn; [reflexivity|]. f_equal; exact IH.
-Qed.
-
-(** a single-point write is dropped iff the point is older than the bound *)
-Lemma single_point_iff mb st t :
-  Inv st -> in_range t ->
-  exists st' o, write_points mb st [t] = Some (st', [o]) /\ (o = None <-> t < mb).
-Proof.
-  intros HI Ht. destruct (Z_lt_ge_dec t mb) as [L|G].
-  - exists st, None. split; [|tauto].
-    apply (all_old_dropped mb st [t] HI); constructor; auto.
-  - assert (HT : Forall in_range [t]) by (constructor; auto).
-    destruct (write_points mb st [t]) as [[st' m]|] eqn:E.
-    + destruct (drop_implies_older mb st [t] st' m HI HT E) as [Hlen Hd].
-      destruct m as [|o [|? ?]]; try discriminate. exists st', o. split; [reflexivity|].
-      split; [|lia]. intros ->. specialize (Hd t). cbn in Hd. apply Hd. left; reflexivity.
-    + exfalso. unfold write_points in E.
-      destruct (ms_collect_min_spec mb [t] st [] HI HT) as (st1 & lst & E1 & _). rewrite E1 in E. discriminate.
 Qed.
